@@ -107,7 +107,7 @@ func (x *Exec) callFn(st *State, fn *ssa.Function, bind []*Val, args []*Val, pos
 	if o := fn.Origin(); o != nil {
 		iname = o.Name()
 	}
-	if x.inlineNames[iname] && fn.Blocks != nil && x.unitFn != nil && (fn.Pkg == x.unitFn.Pkg || fn.Origin() != nil && fn.Origin().Pkg == x.unitFn.Pkg) && (fn.Signature.Recv() != nil || fn.Origin() != nil) {
+	if x.inlineNames[iname] && fn.Blocks != nil && x.unitFn != nil && x.w.isTargetFn(fn) && (fn.Signature.Recv() != nil || fn.Origin() != nil) {
 		// bounded harness: this callee is executed itself (loops unrolled), its own callees
 		// are still replaced by their contracts
 		x.calls["inlined (bounded harness): "+name]++
